@@ -61,10 +61,10 @@ func (v *Val) write(sb *strings.Builder) {
 	}
 }
 
-func vnum(u uint64) *Val    { return &Val{K: 'n', N: new(big.Int).SetUint64(u)} }
-func vbig(b *big.Int) *Val  { return &Val{K: 'n', N: new(big.Int).Set(b)} }
-func vbytes(b []byte) *Val  { return &Val{K: 'b', B: append([]byte{}, b...)} }
-func vlist(l ...*Val) *Val  { return &Val{K: 'l', L: l} }
+func vnum(u uint64) *Val   { return &Val{K: 'n', N: new(big.Int).SetUint64(u)} }
+func vbig(b *big.Int) *Val { return &Val{K: 'n', N: new(big.Int).Set(b)} }
+func vbytes(b []byte) *Val { return &Val{K: 'b', B: append([]byte{}, b...)} }
+func vlist(l ...*Val) *Val { return &Val{K: 'l', L: l} }
 func (v *Val) nested() bool { // has a list inside a list
 	if v.K == 'S' {
 		return v.Of.nested()
